@@ -138,7 +138,7 @@ func useDecls(t *rapid.T, local string, k int, u *int) []string {
 	for i := 0; i < n; i++ {
 		*u++
 		id := *u
-		kind := rapid.IntRange(0, 18).Draw(t, "use")
+		kind := rapid.IntRange(0, 20).Draw(t, "use")
 		if i == 0 && kind == 7 {
 			kind = 0 // the first use must really use the package (else: imported and not used)
 		}
@@ -184,6 +184,11 @@ func useDecls(t *rapid.T, local string, k int, u *int) []string {
 		case 17:
 			// method expression and method value on a package-level type / variable
 			out = append(out, fmt.Sprintf("var u%d, v%d = %s.M, %s.M", id, id, q(local, fmt.Sprintf("T%d", k)), q(local, fmt.Sprintf("S%d", k))))
+		case 18, 19:
+			// self-contained statements, each tagged by a string literal, that can be moved into
+			// any other function body
+			out = append(out, fmt.Sprintf("func u%d() {\n\t_, _ = \"tag%d_1\", %s()\n\t_, _ = \"tag%d_2\", %s+%s\n\tvar _ = []interface{}{\"tag%d_3\", %s{}, %s}\n\tif %s > 0 {\n\t\t_ = \"tag%d_4\"\n\t}\n}",
+				id, id, q(local, fmt.Sprintf("F%d", k)), id, q(local, fmt.Sprintf("V%d", k)), q(local, fmt.Sprintf("C%d", k)), id, q(local, fmt.Sprintf("T%d", k)), q(local, fmt.Sprintf("X%d", k)), q(local, fmt.Sprintf("V%d", k)), id))
 		case 12:
 			out = append(out, fmt.Sprintf("func u%d[P %s](p P) int {\n\treturn p.M()\n}", id, q(local, fmt.Sprintf("I%d", k))))
 		default:
